@@ -1,6 +1,7 @@
 package sorting
 
 import (
+	"math"
 	"strconv"
 )
 
@@ -12,11 +13,22 @@ func ByName(a, b string) bool {
 	return a < b
 }
 
+// ByNameSmart orders numbers by magnitude and before any non-numeric text, which is ordered by name.
+// Different spellings of the same number (eg. 1 and 1.0) are ordered by name, so that any
+// two distinct strings always compare the same way and the order is transitive
 func ByNameSmart(a, b string) bool {
 	v0, err0 := strconv.ParseFloat(a, 64)
 	v1, err1 := strconv.ParseFloat(b, 64)
-	if err0 == nil && err1 == nil {
-		return v0 < v1
+	num0 := err0 == nil && !math.IsNaN(v0)
+	num1 := err1 == nil && !math.IsNaN(v1)
+	switch {
+	case num0 && num1:
+		if v0 != v1 {
+			return v0 < v1
+		}
+		return a < b
+	case num0 != num1:
+		return num0
 	}
 	return a < b
 }
